@@ -536,6 +536,13 @@ impl Association {
         // master timeout and here we go, we're now in the same situation as a video call with a 3 seconds
         // lag, each waiting for the other to talk, but end up talking at the same time.
         if self.is_integrity_complete() || response.raw_objects.is_empty() {
+            // a fragment whose objects cannot be parsed is not accepted: confirming it would
+            // make the outstation discard events that never reached the handler
+            if let Err(err) = response.objects {
+                tracing::warn!("ignoring unsolicited response with bad object headers: {err}");
+                return false;
+            }
+
             // Update last fragment received
             let new_frag = LastUnsolFragment::new(response);
             let last_frag = self.last_unsol_frag.replace(new_frag);
